@@ -412,7 +412,7 @@ mod verif_pdu_layout {
         match p.to_payload() {
             Ok((a, payload::Payload::Origin(o))) => {
                 assert!(ok, "accepted only with prefix_len <= max_len <= 32");
-                assert!(a == Action::from_flags(flags), "action from the flags octet");
+                assert!(a == action_of(flags & 1 == 1), "action from the lowest bit of the flags octet");
                 assert!(o.asn.into_u32() == asn && o.prefix.prefix_len() == len && o.prefix.max_len() == Some(ml), "item fields");
                 assert!(o.prefix.addr() == IpAddr::V4(Ipv4Addr::from(addr & !((hostmask(len) >> 96) as u32))), "address with host bits cleared (relaxed constructor)");
             }
@@ -427,7 +427,7 @@ mod verif_pdu_layout {
         match p.to_payload() {
             Ok((a, payload::Payload::Origin(o))) => {
                 assert!(ok, "accepted only with prefix_len <= max_len <= 128");
-                assert!(a == Action::from_flags(flags), "action from the flags octet");
+                assert!(a == action_of(flags & 1 == 1), "action from the lowest bit of the flags octet");
                 assert!(o.asn.into_u32() == asn && o.prefix.prefix_len() == len && o.prefix.max_len() == Some(ml), "item fields");
                 assert!(o.prefix.addr() == IpAddr::V6(Ipv6Addr::from(addr & !hostmask(len))), "address with host bits cleared (relaxed constructor)");
             }
